@@ -16,7 +16,7 @@ func init() {
 	Descriptions["C04"] = "Engine E5 (encode side): the BER tree built by every response encoder is obtained by symbolic interpretation of its SSA along every path (callees such as beginResponse / addOptionalResponseChildren / encodeControls / EntryAttribute.encode inlined, functional options resolved) and compared with the RFC 4511 reference grammar: " +
 		"C04-shape (envelope SEQ{INT messageID, APP[tag]{ENUM code, OCTSTR matchedDN, OCTSTR diagnostic}, [0] controls}, entry APP[4]{DN, SEQ of SEQ{name, SET of values}} in slice order), " +
 		"C04-ctor (each New*Response stores r.message.GetID() and exactly the option values / documented defaults into the fields the encoder reads), C04-options (each With* option writes its own field), C04-setter (each setter writes the field its encoder slot reads), " +
-		"C04-write (the bytes written are r.packet().Bytes()), C04-newinteger (every ber.NewInteger receives a dynamic type the library accepts). Decides which value ends up in which slot of which tag for all values; BER length/identifier encoding is the library's."
+		"C04-write (the bytes written are r.packet().Bytes()), C04-controls (what each control's Encode puts on the wire, rule C14-encode-ref; ber.AppendChild is modelled as copying the child's bytes at the time of the call), C04-newinteger (every ber.NewInteger receives a dynamic type the library accepts). Decides which value ends up in which slot of which tag for all values; BER length/identifier encoding is the library's."
 }
 
 var typeAnnot = regexp.MustCompile(`:[a-z0-9]+`)
@@ -341,6 +341,24 @@ func checkC04(c *Ctx) {
 			}
 		}
 		R.Floor("C04-write-flushed", 2)
+	}
+
+	// ---- C04-controls: "controls are exactly those the handler set": the response tree carries controls[*].Encode();
+	// what each exported control's Encode puts on the wire is the C14-encode-ref rule (imported)
+	{
+		tmp := &Ctx{P: c.P, R: report.New("tmp"), Tier: c.Tier}
+		checkC14(tmp)
+		for _, o := range tmp.R.Obls {
+			if o.Rule == "C14-encode-ref" {
+				switch o.Status {
+				case report.Discharged:
+					R.OK("C04-controls", o.Construct, o.Pos, o.Detail)
+				default:
+					R.Fail("C04-controls", o.Construct, o.Pos, o.Detail)
+				}
+			}
+		}
+		R.Floor("C04-controls", 25)
 	}
 
 	// ---- C04-newinteger
